@@ -1086,3 +1086,81 @@ UNITS += [
          must_have=[r"MSA_call.postcondition", r"MH_apply_step.precondition"], checks=LEAF_CHECKS, assumptions=["MH::apply_step by the contract enforced in c05_urban_msc_apply_step"],
          note="MscApplier: apply_step runs exactly for alive tracks whose step was MSC-limited in this step"),
 ]
+
+
+# ---------------------------------------------------------------------------
+# BoundaryExecutor: crossing a boundary moves no energy and no time; it changes volume / material, or ends the track
+# ---------------------------------------------------------------------------
+BEX = "src/celeritas/geo/detail/BoundaryExecutor.hh"
+BEX_MODEL = """
+typedef struct { Track* t; } GeoTrackView;
+typedef struct { Track* t; } GeoMaterialView;
+typedef struct { Track* t; } MaterialTrackView;
+/* ghost geometry / material state of the slot */
+bool g_on_boundary, g_failed, g_outside; size_type g_volume, g_material; unsigned g_crossings, g_errored_calls;
+size_type g_new_volume; bool g_cross_fails, g_new_outside;      /* what the crossing does (any outcome) */
+size_type g_matid_of_new_volume;                                 /* geo_mat.material_id(new volume): may be invalid (volume without material) */
+static bool GEO_is_on_boundary(GeoTrackView const* g) { return g_on_boundary; }
+static bool GEO_failed(GeoTrackView const* g) { return g_failed; }
+static bool GEO_is_outside(GeoTrackView const* g) { return g_outside; }
+static size_type GEO_volume_id(GeoTrackView const* g) { return g_volume; }
+/* cross_boundary(): own EXPECT on boundary; the track stays on the boundary and is now in the next volume / outside / failed (contract; the navigator itself is property C03) */
+static void GEO_cross_boundary(GeoTrackView* g)
+{
+    __CPROVER_assert(g_on_boundary, "celer_expect: cross_boundary() is_on_boundary()");
+    ++g_crossings; g_failed = g_cross_fails; g_outside = g_new_outside; g_volume = g_new_volume;
+}
+static size_type GMV_material_id(GeoMaterialView const* m, size_type vol) { __CPROVER_assert(vol != INVALID_ID, "celer_expect: material_id(volume) valid volume"); return vol == g_new_volume ? g_matid_of_new_volume : INVALID_ID; }
+/* CoreTrackView::apply_errored(): status := errored (contract) */
+static void CTV_apply_errored(CoreTrackView const* track) { ++g_errored_calls; track->t->status = TS_errored; }
+"""
+BEX_RULES = [
+    Rule(r"CELER_EXPECT\(\[track\] \{.*?\}\(\)\);", "CELER_EXPECT(track->t->post_step_action == track->t->boundary_action && track->t->status == TS_alive);", 1, flags=16, note="lambda-wrapped EXPECT -> its condition"),
+    StripPP(r"!CELER_DEVICE_COMPILE", note="host logging block dropped (no effect on state)"),
+    Rule(r"auto geo = track\.make_geo_view\(\);", "GeoTrackView geo = {track->t};", 1, note="typed view handle"),
+    Rule(r"geo\.(is_on_boundary|failed|is_outside|volume_id)\(\)", r"GEO_\1(&geo)", "*", note="geometry view call -> ghost state"),
+    Rule(r"geo\.cross_boundary\(\);", "GEO_cross_boundary(&geo);", "*", note="geometry view call -> contract"),
+    Rule(r"track\.apply_errored\(\);", "CTV_apply_errored(track);", "*", note="CoreTrackView::apply_errored -> contract"),
+    Rule(r"auto geo_mat = track\.make_geo_material_view\(\);", "GeoMaterialView geo_mat = {track->t};", "*", note="typed view handle"),
+    Rule(r"auto matid = geo_mat\.material_id\(", "size_type matid = GMV_material_id(&geo_mat, ", "*", note="view call"),
+    Rule(r"!matid\b", "(matid == INVALID_ID)", "*", note="OpaqueId::operator bool"),
+    Rule(r"auto mat = track\.make_material_view\(\);\s*mat = \{matid\};", "g_material = matid;   /* MaterialTrackView::operator=({matid}) */", "*", note="material view assignment -> ghost"),
+    Rule(r"auto sim = track\.make_sim_view\(\);", "SimTrackView sim = CTV_make_sim_view(track);", "*", note="typed view handle"),
+    Rule(r"sim\.status\(TrackStatus::(\w+)\);", r"STV_status_set(&sim, TS_\1);", "*", note="view setter"),
+    Rule(r"TrackStatus::(\w+)", r"TS_\1", "*", note="enum class value (bound)"),
+]
+
+
+def build_boundary_executor(ctx):
+    pc = ctx.func(BEX, r"^BoundaryExecutor::operator\(\)\(celeritas::CoreTrackView& track\)", BEX_RULES, name="BoundaryExecutor::operator()")
+    return (VHDR + BEX_MODEL + """
+#define T0(f) __CPROVER_old(track->t->f)
+void BEX_call(CoreTrackView const* track)
+__CPROVER_requires(VIEW_OK(track) && g_crossings == 0 && g_errored_calls == 0 && !g_failed && !g_outside && g_volume != INVALID_ID && g_new_volume != INVALID_ID)
+/* own CELER_EXPECTs: an alive track whose step ended on a boundary */
+__CPROVER_requires(track->t->post_step_action == track->t->boundary_action && track->t->status == TS_alive && g_on_boundary)
+__CPROVER_assigns(track->t->status, g_failed, g_outside, g_volume, g_material, g_crossings, g_errored_calls)      /* frame: energy, deposition, time, step length, actions are not assignable */
+/* exactly one crossing */
+__CPROVER_ensures(g_crossings == 1)
+/* into another volume WITH a material: stays alive on the boundary, volume and material are the new volume's */
+__CPROVER_ensures((!g_cross_fails && !g_new_outside && g_matid_of_new_volume != INVALID_ID) ==> (track->t->status == TS_alive && g_volume == g_new_volume && g_material == g_matid_of_new_volume && g_on_boundary))
+/* leaving the world: killed (exactly once), material untouched */
+__CPROVER_ensures((!g_cross_fails && g_new_outside) ==> (track->t->status == TS_killed && g_material == __CPROVER_old(g_material)))
+/* navigation failure or a volume without material: flagged errored, never silently alive */
+__CPROVER_ensures((g_cross_fails || (!g_new_outside && g_matid_of_new_volume == INVALID_ID)) ==> (track->t->status == TS_errored && g_errored_calls == 1 && g_material == __CPROVER_old(g_material)))
+{""" + pc.body + """}
+void h_bex(void)
+{
+    Track t; CoreTrackView v = {&t}; unsigned a, b, c; g_on_boundary = (a != 0); g_cross_fails = (b != 0); g_new_outside = (c != 0);
+    BEX_call(&v);
+    VERIF_CANARY();
+}
+""")
+
+
+UNITS += [
+    Unit("c05_boundary_executor", build_boundary_executor, "h_bex", enforce="BEX_call", replace=["STV_status_set"], timeout=120, backend=["sat", "cvc5"],
+         must_have=[r"BEX_call.postcondition", r"celer_expect", r"celer_ensure"], checks=LEAF_CHECKS,
+         assumptions=["geometry cross_boundary / material lookup by contract (any outcome: next volume, outside, failure, volume without material); the navigator itself is property C03"],
+         note="BoundaryExecutor: one crossing; energy, deposition, time and step length are outside its frame; new volume + material when it stays inside, killed when it leaves the world, errored on a navigation failure or a volume without material"),
+]
